@@ -19,6 +19,7 @@ import (
 	"encoding/json"
 	"fmt"
 	"strings"
+	"time"
 
 	"github.com/notaryproject/notation-core-go/signature"
 )
@@ -241,17 +242,17 @@ func getSignedAttributes(req *signature.SignRequest, algorithm string) (map[stri
 
 	switch req.SigningScheme {
 	case signature.SigningSchemeX509:
-		jwsProtectedHeader.SigningTime = &req.SigningTime
+		jwsProtectedHeader.SigningTime = rfc3339Time(req.SigningTime)
 	case signature.SigningSchemeX509SigningAuthority:
 		crit = append(crit, headerKeyAuthenticSigningTime)
-		jwsProtectedHeader.AuthenticSigningTime = &req.SigningTime
+		jwsProtectedHeader.AuthenticSigningTime = rfc3339Time(req.SigningTime)
 	default:
 		return nil, fmt.Errorf("unsupported SigningScheme: `%v`", req.SigningScheme)
 	}
 
 	if !req.Expiry.IsZero() {
 		crit = append(crit, headerKeyExpiry)
-		jwsProtectedHeader.Expiry = &req.Expiry
+		jwsProtectedHeader.Expiry = rfc3339Time(req.Expiry)
 	}
 
 	jwsProtectedHeader.Critical = crit
@@ -261,6 +262,17 @@ func getSignedAttributes(req *signature.SignRequest, algorithm string) (map[stri
 	}
 
 	return mergeMaps(m, extAttrs)
+}
+
+// rfc3339Time returns t in a form that RFC 3339 expresses exactly. RFC 3339
+// writes a zone offset in whole minutes, so a time in a location whose offset
+// has a seconds part would be read back as a different instant. Such a time
+// is expressed in UTC.
+func rfc3339Time(t time.Time) *time.Time {
+	if _, offset := t.Zone(); offset%60 != 0 {
+		t = t.UTC()
+	}
+	return &t
 }
 
 func convertToMap(i interface{}) (map[string]interface{}, error) {
